@@ -415,6 +415,13 @@ class Execution:
                 p.first_lock_obs = obs
             if obs == "ok":
                 p.holder = True
+        if desc[0] == "os.open" and desc[1] == lockname(mod) and (desc[2] & os.O_CREAT):
+            if p.first_lock_obs is None:
+                p.first_lock_obs = obs
+            if obs == "ok":
+                p.holder = True
+        if desc[0] == "os.open" and desc[1].endswith(".c.cached") and obs == "ok" and (desc[2] & os.O_CREAT):
+            p.holder = False
         if desc[0] == "open" and desc[1].endswith(".c.cached") and obs == "ok" and len(desc) > 2 and ("x" in desc[2] or "w" in desc[2]):
             p.holder = False
         if desc[0] in ("replace", "rename") and desc[1] == lockname(mod) and obs == "ok":
